@@ -71,7 +71,8 @@ def main(tier, seed):
     return history.check(
         "C15", tier, seed, run=run, variants=[{}, {"head": "fontface"}, {"comments": True}, {}, {"head": "comment"}, {"head": "variables"}], machine="Namespaces", mc_cfg="Namespaces_%s.cfg" % tier, gen_cfg="Namespaces_gen_%s.cfg" % tier,
         trace_module="NamespacesTrace", adapter="adapters.namespaces", sig=sig, corrupt=corrupt,
-        tour_cap=17000 if q else 200000, n_walks=300 if q else 4000, walk_len=15 if q else 30, nontrivial=nontrivial,
+        tour_cap=17000 if q else 200000, n_walks=600 if q else 4000, walk_len=15 if q else 30, nontrivial=nontrivial,
+        walk_overrides={"MaxNs": 3},
         rule="transition tour over the intended-semantics machine (<=2 namespace rules, <=1 (quick) / 2 selectors in the generation "
              "config) x every namespace operation: add/insert @namespace (text, object), mapping set/delete, deleteRule, prefix "
              "assignment, adding and rewriting selectors in 7 forms (p|e q|e *|e |e e [p|a] undeclared z|e), detach/attach of "
